@@ -1,6 +1,7 @@
 """C14 - sub-ontologies (clauses: SIBLING inclusive modifier predicate, KIND loops, COVER copied term, ROLE induced links)"""
 import re
 from engines import kinds_in_type, kind_of_segment, KIND_FIELDS, KIND_FIELD_OWNERS
+from engines import check_complete_iteration
 from prov import Prov, params_of, field_names
 from props.shared import membership_sites, term_fields
 
@@ -109,6 +110,8 @@ def run(ck, prog, ctx):
                 ck.ob("KIND", "links/sub_ontology/%s" % m, not filt, "%s links the record to its direct terms ∩ %s" % (m, "all retained ids" if not filt else "the modifier-FILTERED ids (modifier links are lost)"), where=fb.where(t.line))
     for m, K in sorted(ANNOT.items()):
         ck.ob("KIND", "K3/sub_ontology/" + m, K in seen_kinds, "sub_ontology %s %s records" % ("re-annotates" if K in seen_kinds else "never re-annotates", K), where=sub.where())
+
+    check_complete_iteration(ck, "KIND", prog, [SUB], "the leaves, retained terms and annotation records")
 
     # ------------------------------------------------------------------ COVER: copied term
     getters = set()
